@@ -9,8 +9,9 @@ about the definitions of `Model/C02.lean` (and `Model/C07.lean` for the traces) 
 * `Spec.C02.level b n` / `Spec.C02.meshLevel b n` – "all permutations of length `n`, filtered by
   avoidance" (no cache, no insertion encoding);
 * `C02L.ValidBasis b` – `b ≠ []`, every element a permutation of length `≥ 1` (what `Basis(...)` +
-  the `ValueError` guard of `Av.__new__` give); `C02L.ValidMeshBasis b` – the empty permutation avoids
-  every mesh pattern of `b`;
+  the `ValueError` guard of `Av.__new__` give); mesh bases need no hypothesis at all (every list of mesh
+  patterns: `Av.__new__` starts the cache with `{(): [0]}` iff the empty permutation avoids the basis);
+  `C02L.ValidBasisV` is `ValidBasis` for a classical basis and `True` for a mesh basis;
 * `C02L.CacheInv b c` – the cache invariant: every level has the spec keys (as a `List.Perm`, hence
   duplicate-free), the last level's values are lists being filled, the level before it holds exactly
   the valid end-insertions (`C02L.SpotsOK`, with the level-0 quirk `{(): [0]}` carried honestly);
@@ -107,9 +108,11 @@ theorem ensureLevel_correct_mesh {b : List Mesh} (o : AvObj) (hob : o.basis = .m
   exact ⟨o', tr, h1, h2, h6, h3, h4.inv, h5, h4.len, h4.inv.keys n h5, fun w hw =>
     ⟨(h7 w hw).1, (h7 w hw).2.inv, (h7 w hw).2.len, (h7 w hw).2.inv.keys⟩⟩
 
-/-- the initial cache of a mesh-basis class satisfies the mesh invariant -/
-theorem meshInv_fresh {b : List Mesh} (hb : ValidMeshBasis b) : MeshInv b (freshObj (.mesh b)).cache :=
-  MeshInv.fresh hb
+/-- the initial cache of a mesh-basis class satisfies the mesh invariant - for **every** list of mesh
+    patterns (`{(): [0]}` if `ε` avoids the basis, `{}` if some pattern has the empty underlying
+    permutation and is contained in `ε`) -/
+theorem meshInv_fresh (b : List Mesh) : MeshInv b (freshObj (.mesh b)).cache :=
+  MeshInv.fresh b
 
 /-- **T2–T4 in one statement** (either kind of basis): `_ensure_level(n)` succeeds from every state
     satisfying the object invariant, the result and every state of the trace are later states of `o` -/
@@ -127,7 +130,7 @@ theorem getLevel_spec (o : AvObj) (h : ObjInv o) (n : Nat) :
 
 /-- **history independence**: whatever levels were requested before (any list `hist`, any order,
     repetitions allowed) on a fresh class object, every one of these requests and the next request
-    `n` succeed and return the spec level -/
+    `n` succeed and return the spec level (`ValidBasisV` is `True` for a mesh basis) -/
 theorem levels_history_independent (b : BasisV) (hb : ValidBasisV b) (hist : List Nat) (n : Nat) :
     ∃ o₁ outs o₂ ks, runLevels (freshObj b) hist = .ok (o₁, outs) ∧
       List.Forall₂ (fun m out => out.Perm (specLevel b m)) hist outs ∧
@@ -135,6 +138,7 @@ theorem levels_history_independent (b : BasisV) (hb : ValidBasisV b) (hist : Lis
   obtain ⟨o₁, outs, h1, hext, hall⟩ := runLevels_spec hist (freshObj b) (ObjInv.fresh hb)
   obtain ⟨o₂, ks, h2, _, hks⟩ := C02L.getLevel_spec o₁ hext.inv n
   rw [hext.basis] at hks
+  rw [freshObj_basis] at hall hks
   exact ⟨o₁, outs, o₂, ks, h1, hall, h2, hks⟩
 
 /-- the same from an arbitrary reachable state: two objects of the same class that both satisfy the
@@ -176,12 +180,13 @@ theorem getLevel_exact {b : List NSeq} (hb : ValidBasis b) (hist : List Nat) (n 
   refine ⟨o₁, outs, o₂, ks, h1, h2, hks.nodup_iff.mpr (level_nodup b n), hks.length_eq, fun σ => ?_⟩
   rw [hks.mem_iff]; exact mem_level_iff hb n σ
 
-/-- the same for a mesh basis (avoidance = the executable mesh containment test of C04/C01) -/
-theorem getLevel_exact_mesh {b : List Mesh} (hb : ValidMeshBasis b) (hist : List Nat) (n : Nat) :
+/-- the same for a mesh basis - any list of mesh patterns, no hypothesis (avoidance = the executable
+    mesh containment test of C04/C01) -/
+theorem getLevel_exact_mesh (b : List Mesh) (hist : List Nat) (n : Nat) :
     ∃ o₁ outs o₂ ks, runLevels (freshObj (.mesh b)) hist = .ok (o₁, outs) ∧
       getLevel o₁ n = .ok (o₂, ks) ∧ ks.Nodup ∧ ks.length = (Spec.C02.meshLevel b n).length ∧
       ∀ σ, σ ∈ ks ↔ IsPerm σ ∧ σ.length = n ∧ ∀ m ∈ b, containsMesh σ m = false := by
-  obtain ⟨o₁, outs, o₂, ks, h1, _, h2, hks⟩ := levels_history_independent (.mesh b) hb hist n
+  obtain ⟨o₁, outs, o₂, ks, h1, _, h2, hks⟩ := levels_history_independent (.mesh b) trivial hist n
   have hks' : ks.Perm (Spec.C02.meshLevel b n) := hks
   refine ⟨o₁, outs, o₂, ks, h1, h2, hks'.nodup_iff.mpr ((C09.permsLex_spec n).2.2.1.filter _),
     hks'.length_eq, fun σ => ?_⟩
@@ -240,6 +245,22 @@ theorem av_refines_spec (ops₁ ops₂ : List POp) (h₁ : ∀ op ∈ ops₁, op
   · obtain ⟨s', h, _, _⟩ := enumeration_spec (n + 1) 0 hi3 ho
     exact ⟨s', h⟩
 
+/-- `av_refines_spec` for a mesh basis: **no hypothesis on the patterns** beyond the non-emptiness that
+    `Av.__new__` demands (a basis containing a pattern with empty underlying permutation is fine) -/
+theorem av_refines_spec_mesh (ops₁ ops₂ : List POp) (h₁ : ∀ op ∈ ops₁, op.WF) (h₂ : ∀ op ∈ ops₂, op.WF)
+    (name : String) (M : List Mesh) (hne : M ≠ []) (hnb : ∀ op ∈ ops₂, ¬ op.binds name) (n : Nat) :
+    (∃ s' ks, (runOps ((POp.new name (.mesh M)).run (runOps Proc.init ops₁)).1 ops₂).level name n = .ok (s', ks) ∧
+        ks.Perm (Spec.C02.meshLevel M n)) ∧
+    (∃ s' ks, (runOps ((POp.new name (.mesh M)).run (runOps Proc.init ops₁)).1 ops₂).upTo name (n + 1) 0 = .ok (s', ks) ∧
+        ks.Perm ((List.range' 0 (n + 1)).flatMap (Spec.C02.meshLevel M))) ∧
+    (∃ s', (runOps ((POp.new name (.mesh M)).run (runOps Proc.init ops₁)).1 ops₂).enumeration name (n + 1) 0 =
+        .ok (s', (List.range' 0 (n + 1)).map fun j => (Spec.C02.meshLevel M j).length)) := by
+  have hnf : forbiddenB (.mesh M) = false := by
+    cases M with
+    | nil => exact (hne rfl).elim
+    | cons x t => rfl
+  exact av_refines_spec ops₁ ops₂ h₁ h₂ name (.mesh M) trivial hnf hnb n
+
 /-- **membership** `σ in Av(B)` after any history, in the property's wording -/
 theorem contains_correct (ops₁ ops₂ : List POp) (h₁ : ∀ op ∈ ops₁, op.WF) (h₂ : ∀ op ∈ ops₂, op.WF)
     (name : String) (B : List NSeq) (hb : ValidBasis B) (hnb : ∀ op ∈ ops₂, ¬ op.binds name) (σ : NSeq) :
@@ -274,6 +295,28 @@ theorem is_subclass_correct (ops : List POp) (hwf : ∀ op ∈ ops, op.WF) (a b 
     have := hi.obj (obj?_eq_some hob); unfold ObjInv at this; rw [hbb] at this; exact this.1
   obtain ⟨s', h1, h2, _⟩ := isSubclass_spec hi hoa hob hba hbb
   exact ⟨s', _, h1, h2, subclass_iff hva hvb.perm⟩
+
+/-- **`is_subclass` with a mesh basis on the right** after any history: for `a = Av(B₁)` (classical) and
+    `b = Av(M₂)` (mesh patterns over permutations) it succeeds and answers `True` iff every permutation
+    avoiding `B₁` avoids every mesh pattern of `M₂` (`p1.get_perm() not in self`: a mesh occurrence is
+    a classical occurrence of the underlying permutation, and that permutation contains its own mesh
+    pattern since there are no other points) -/
+theorem is_subclass_correct_mesh (ops : List POp) (hwf : ∀ op ∈ ops, op.WF) (a b : String) (B₁ : List NSeq)
+    (M₂ : List Mesh) (hM : ∀ m ∈ M₂, IsPerm m.pattern)
+    (ha : Bound (runOps Proc.init ops) a (.classical B₁)) (hb : Bound (runOps Proc.init ops) b (.mesh M₂)) :
+    ∃ s' r, (runOps Proc.init ops).isSubclass a b = .ok (s', r) ∧ ProcInv s' ∧
+      (r = true ↔ ∀ σ, IsPerm σ → (∀ p ∈ B₁, ¬ Contains σ p) → (∀ m ∈ M₂, containsMesh σ m = false)) := by
+  have hi := proc_invariant ops hwf
+  obtain ⟨ida, oa, hoa, hba⟩ := ha
+  obtain ⟨idb, ob, hob, hbb⟩ := hb
+  have hva : ValidBasis B₁ := by
+    have := hi.obj (obj?_eq_some hoa); unfold ObjInv at this; rw [hba] at this; exact this.1
+  obtain ⟨s', h1, h2, _⟩ := isSubclass_spec_mesh hi hoa hob hba hbb
+  exact ⟨s', _, h1, h2, subclass_mesh_iff hva hM⟩
+
+/-- a permutation contains every mesh pattern built on itself -/
+theorem containsMesh_self (m : Mesh) (hp : IsPerm m.pattern) : containsMesh m.pattern m = true :=
+  C02L.containsMesh_self m hp
 
 /-- containment is transitive (the fact behind `is_subclass`) -/
 theorem contains_trans {σ τ π : NSeq} (h₁ : Contains σ τ) (h₂ : Contains τ π) : Contains σ π :=
